@@ -13,6 +13,10 @@ pub fn run<S: InterpreterTrait>(interpreter: &mut S) -> Result<(), RuntimeError>
         return Err(RuntimeError::IllegalFunctionCall);
     }
     let f = bytes_to_f64(&bytes);
+    // the bytes of an infinity or a NaN do not encode a DOUBLE value
+    if !f.is_finite() {
+        return Err(RuntimeError::Overflow);
+    }
     interpreter
         .context_mut()
         .set_built_in_function_result(BuiltInFunction::Cvd, f);
